@@ -1572,3 +1572,56 @@ def r08p(ctx, rep, rule="R08p"):
             "each of %d path(s)" % len(paths) if ok else
             "expt reports 'exponent is too large' on a path that has not compared the base with 0, 1 and -1 (%s equality test(s) on "
             "the weakest path): (expt 1 4294967296) is 1 and (expt -1 4294967297) is -1" % worst, [loc])
+
+
+def r16m(ctx, rep, rule="R16m"):
+    """the scanner keeps an exponent's sign inside the numeral"""
+    facts, cg = ctx["facts"], ctx["cg"]
+    rep.rule(rule, "a literal and its spelling denote the same number: string->number reads 1e-7 and 2.5E+3, so the scanner has to "
+             "deliver those spellings as one Number token. '+' and '-' are identifier characters as far as the scanner's general "
+             "classes go (a token that meets one turns into a symbol), so the number scanners — scan_number, scan_dot and the "
+             "predicates they call — must examine the scanned character against both sign characters somewhere; a scanner that "
+             "never looks for them makes every literal with a signed exponent a symbol.")
+    scope = set()
+    for nm in ("marwood::lex::scan_number", "marwood::lex::scan_dot"):
+        f = need(rep, rule, facts, nm)
+        if f is None:
+            return
+        scope.add(nm)
+        for bb, t in f.calls():
+            c = callee(t)
+            if c in facts.fns and c.startswith("marwood::lex::") and c != "marwood::lex::is_subsequent_identifier":
+                scope.add(c)
+                for b2, t2 in facts.fns[c].calls():
+                    c2 = callee(t2)
+                    if c2 in facts.fns and c2.startswith("marwood::lex::") and c2 != "marwood::lex::is_subsequent_identifier":
+                        scope.add(c2)
+    for nm in ("scan_number", "scan_dot"):
+        reach = {"marwood::lex::" + nm}
+        f = facts.fns["marwood::lex::" + nm]
+        for bb, t in f.calls():
+            c = callee(t)
+            if c in scope:
+                reach.add(c)
+                reach |= {callee(t2) for b2, t2 in facts.fns[c].calls() if callee(t2) in scope}
+        seen = set()
+        for p in reach:
+            g = facts.fns[p]
+            for bb, j, st in g.stmts():
+                rv = st["rv"]
+                if rv["k"] == "bin" and rv["op"] in ("Eq", "Ne") and rv.get("aty") == "char":
+                    for side in ("a", "b"):
+                        c = op_const(rv[side])
+                        if c is not None and "int" in c:
+                            seen.add(c["int"])
+            for bb, b in enumerate(g.blocks):
+                t = b["term"]
+                if t["k"] == "switch" and (op_place(t["op"]) or {}).get("ty") == "char":
+                    seen |= {v for v, tg in t["targets"]}
+        key = "%s|%s|sign-characters" % (rule, nm)
+        ok = 43 in seen and 45 in seen
+        (rep.ok if ok else rep.fail)(
+            rule, key, "%s (with the predicates it calls) examines the character against '+' and '-'" % nm if ok else
+            "%s and the predicates it calls never compare the scanned character with %s: the sign of an exponent ends the numeral or "
+            "turns it into a symbol, so the literal 1e-7 is not the number (string->number \"1e-7\") is" % (
+                nm, " and ".join(repr(chr(x)) for x in (43, 45) if x not in seen)), [f.span])
